@@ -473,7 +473,7 @@ class _Cfg:
 def _explore(d, cfg):
     """Product of the design with the reference monitor.  Monitor state: (phase, s, ml, j, cnt);
     phases I idle, A active (j words accepted), D awaiting done, G nothing may be emitted (a start with max_length 0)."""
-    viol, lanes_bad = {}, []
+    viol, lanes_bad = {}, {}          # lanes_bad: first complaint per kind ('cut' by max_length / 'whole' word or end of data)
     stats = {'states': 0, 'cycles': 0, 'words': 0}
     completed = set()
     start = (d.reset(), ('I', 0, 0, 0, 0))
@@ -568,8 +568,8 @@ def _explore(d, cfg):
                     if bin(valid).count('1') != want_bits:
                         report('valid-mask', node, inp, 'word %d of the transfer (start %d, max_length %d) carries %d byte(s) %s: '
                                'that many valid bits must be set, valid is %s' % (tj, s, ml, len(due), due, bin(valid)))
-                    elif valid != want_mask and not lanes_bad:
-                        lanes_bad.append('word %d of the transfer (start %d, max_length %d) carries the byte(s) %s, which sit in lane(s) %s '
+                    elif valid != want_mask and ('cut' if len(due) < min(cfg.bpw, cfg.L - (s + tj) * cfg.bpw) else 'whole') not in lanes_bad:
+                        lanes_bad['cut' if len(due) < min(cfg.bpw, cfg.L - (s + tj) * cfg.bpw) else 'whole'] = ('word %d of the transfer (start %d, max_length %d) carries the byte(s) %s, which sit in lane(s) %s '
                                          'of the %s-endian word %#x: valid must be %s, is %s (it marks data byte(s) %s instead); %s' % (
                                              tj, s, ml, due, sorted(lanes), cfg.endian, pay, bin(want_mask), bin(valid),
                                              [b for b in range((s + tj) * cfg.bpw, min(cfg.L, (s + tj + 1) * cfg.bpw))
@@ -643,10 +643,12 @@ def _run_config(ctx, cls, d, cfg, ml_note, lane_acc, family):
            'no explored path completes the transfer(s) (start, max_length) = %s%s: the other clauses would hold vacuously for them'
            % (missing[:6], ' ...' if len(missing) > 6 else ''))
     if cfg.vw > 1:
-        fam = lane_acc.setdefault(family, {'loc': _drv_loc(ir, VALID), 'lanes': [], 'lane-configs': []})
+        fam = lane_acc.setdefault(family, {'loc': _drv_loc(ir, VALID), 'lanes': [], 'lanes-whole': [], 'lane-configs': []})
         fam['lane-configs'].append(cfg.tag)
-        if lanes_bad:
-            fam['lanes'].append('[%s] %s' % (cfg.tag, lanes_bad[0]))
+        if 'cut' in lanes_bad:
+            fam['lanes'].append('[%s] %s' % (cfg.tag, lanes_bad['cut']))
+        if 'whole' in lanes_bad:
+            fam['lanes-whole'].append('[%s] %s' % (cfg.tag, lanes_bad['whole']))
     ctx.note('%s[%s]: %s' % (cls, cfg.tag, cov))
     return stats
 
@@ -809,4 +811,11 @@ def run(ctx):
                    ('the valid bits must mark the lanes that hold the bytes due (configurations %s): ' % f['lane-configs'] +
                     ' || '.join(f['lanes'][:2])) if f['lanes'] else
                    'the valid bits mark exactly the lanes that hold the bytes due (configurations %s)' % f['lane-configs'])
+            # the same for words NOT cut short by max_length (whole words and the final word of the data): a separate
+            # instance, so that a known finding about max_length cuts does not cover them
+            ctx.ob('C27.valid-lanes', '%s.stream.valid@uncut' % family, not f['lanes-whole'], f['loc'],
+                   ('in a word that max_length does not cut short (a whole word, or the final word of the data) the valid bits must '
+                    'mark the lanes that hold the bytes (configurations %s): ' % f['lane-configs'] + ' || '.join(f['lanes-whole'][:2]))
+                   if f['lanes-whole'] else 'words not cut by max_length: valid bits mark the lanes that hold the bytes (configurations %s)'
+                   % f['lane-configs'])
     ctx.note('product states explored: %d, one-cycle evaluations: %d' % (total['states'], total['cycles']))
